@@ -316,6 +316,12 @@ func (s *Server) Subscribe(stream pb.GNMI_SubscribeServer) error {
 		remove := addSubscription(s.m, c.sr.GetSubscribe(),
 			&matchClient{acl: c.acl, q: c.queue})
 		defer remove()
+		// The target may have been removed between the existence check above
+		// and the registration, in which case its delete was missed and the
+		// stream would stay open on a target that is gone.
+		if !s.c.HasTarget(c.target) {
+			return status.Errorf(codes.NotFound, "no such target: %q", c.target)
+		}
 		if !c.sr.GetSubscribe().GetUpdatesOnly() {
 			go s.processSubscription(&c)
 		}
